@@ -583,6 +583,106 @@ def run_sp(case):
     return ck.result()
 
 
+
+# ------------------------------------------------------------------------------------------- results and arguments at infinity
+@st.composite
+def inf_case(draw, tier="quick"):
+    return {"what": draw(st.sampled_from(["parallel_lines2", "three_planes_common_direction", "plane_and_parallel_line", "parallel_planes", "line_at_infinity_meets_plane", "join_of_directions2", "join_of_directions3", "plane_at_infinity_argument"])),
+            "v": [draw(C.ints(5)) for _ in range(16)], "s": [draw(C.scale()) for _ in range(3)], "coll": draw(st.booleans())}
+
+
+def run_inf(c):
+    """join / meet whose result or whose argument lies at infinity (parallel lines and planes, directions, the plane at infinity):
+    exact result, every argument order"""
+    what, v = c["what"], [float(x) for x in c["v"]]
+    sc = [C.scale_value(x) for x in c["s"]]
+    ck = Checker()
+
+    def expect(site, fn, objs, want, naxes=1, perms=True):
+        orders = list(permutations(range(len(objs)))) if perms else [tuple(range(len(objs)))]
+        for od in orders:
+            r, f = call(site, fn, *[objs[i] for i in od])
+            if f:
+                ck.add(f)
+                return
+            a = np.asarray(r.array)
+            if c["coll"] and a.ndim > naxes:
+                ok = all(C.peq_all(a[i], want, naxes, 1e-9) for i in range(a.shape[0]))
+            else:
+                ok = a.shape == np.shape(want) and C.peq_all(a, want, naxes, 1e-9)
+            if not ck.check(ok, site + ":value", C.short((a.tolist(), np.asarray(want).tolist(), od))):
+                return
+
+    def two(o, cls):
+        return cls(np.stack([o.array, o.array * -2.0])) if c["coll"] else o
+
+    if what == "parallel_lines2":
+        n = np.array(v[0:2])
+        if not np.any(n) or v[2] == v[3]:
+            raise Skip("degenerate")
+        l, m = Line(np.append(n, v[2]) * sc[0]), Line(np.append(n, v[3]) * sc[1])
+        expect("meet:parallel-lines2", meet, [two(l, LineCollection), m], np.array([-n[1], n[0], 0.0]))
+    elif what == "three_planes_common_direction":
+        d = np.array(v[0:3])
+        ns = [np.cross(d, np.array(v[3 + 3 * i : 6 + 3 * i])) for i in range(3)]
+        if not np.any(d) or np.linalg.matrix_rank(np.stack(ns)) < 2 or any(not np.any(n) for n in ns):
+            raise Skip("degenerate")
+        planes = [Plane(np.append(ns[i], v[12 + i]) * sc[i]) for i in range(3)]
+        M = np.stack([pl.array for pl in planes])
+        if np.linalg.matrix_rank(M) < 3:
+            raise Skip("planes through a common line")
+        expect("meet:three-planes-with-a-common-direction", meet, [two(planes[0], PlaneCollection), planes[1], planes[2]], np.append(d, 0.0))
+    elif what == "plane_and_parallel_line":
+        n, a = np.array(v[0:3]), np.array(v[3:6])
+        d = np.cross(n, np.array(v[6:9]))
+        if not np.any(n) or not np.any(d) or abs(n @ a + v[9]) < 0.5:
+            raise Skip("degenerate or line in the plane")
+        e = Plane(np.append(n, v[9]) * sc[0])
+        l = Line(Point(*a), Point(*(a + d)))
+        expect("meet:plane-and-parallel-line", meet, [two(e, PlaneCollection), l], np.append(d, 0.0))
+    elif what == "parallel_planes":
+        n = np.array(v[0:3])
+        if not np.any(n) or v[3] == v[4]:
+            raise Skip("degenerate")
+        e, f_ = Plane(np.append(n, v[3]) * sc[0]), Plane(np.append(n, v[4]) * sc[1])
+        for od in ((e, f_), (f_, e)):
+            r, f = call("meet:parallel-planes", meet, *od)
+            if f:
+                ck.add(f)
+                break
+            from geometer.point import infty_plane
+
+            ck.check(bool(infty_plane.contains(r)) and bool(e.contains(r)) and bool(f_.contains(r)), "meet:parallel-planes:line-at-infinity-in-both-planes", np.asarray(r.array).tolist())
+    elif what == "line_at_infinity_meets_plane":
+        n, g = np.array(v[0:3]), np.array(v[3:6])
+        d = np.cross(n, g)
+        if not np.any(d) or v[6] == v[7]:
+            raise Skip("degenerate")
+        linf, f = call("meet:parallel-planes", meet, Plane(np.append(n, v[6])), Plane(np.append(n, v[7])))
+        if f:
+            raise Skip("no line at infinity")
+        gp = Plane(np.append(g, v[8]) * sc[0])
+        expect("meet:line-at-infinity-and-plane", meet, [two(gp, PlaneCollection), linf], np.append(d, 0.0))
+    elif what == "join_of_directions2":
+        d1, d2 = np.array(v[0:2]), np.array(v[2:4])
+        if abs(d1[0] * d2[1] - d1[1] * d2[0]) < 0.5:
+            raise Skip("same direction")
+        expect("join:two-directions2", join, [two(Point(np.append(d1, 0.0) * sc[0]), PointCollection), Point(np.append(d2, 0.0) * sc[1])], np.array([0.0, 0.0, 1.0]))
+    elif what == "join_of_directions3":
+        ds = [np.array(v[3 * i : 3 * i + 3]) for i in range(3)]
+        if abs(np.linalg.det(np.stack(ds))) < 0.5:
+            raise Skip("dependent directions")
+        expect("join:three-directions3", join, [two(Point(np.append(ds[0], 0.0) * sc[0]), PointCollection), Point(np.append(ds[1], 0.0) * sc[1]), Point(np.append(ds[2], 0.0) * sc[2])], np.array([0.0, 0.0, 0.0, 1.0]))
+    else:
+        n1, n2 = np.array(v[0:3]), np.array(v[3:6])
+        d = np.cross(n1, n2)
+        if not np.any(d):
+            raise Skip("parallel planes")
+        e, f_ = Plane(np.append(n1, v[6]) * sc[0]), Plane(np.append(n2, v[7]) * sc[1])
+        expect("meet:two-planes-and-the-plane-at-infinity", meet, [two(e, PlaneCollection), f_, Plane(np.array([0.0, 0.0, 0.0, 1.0]) * sc[2])], np.append(d, 0.0))
+    return ck.result()
+
+
 LAWS = [
     Law(
         name=k,
@@ -596,6 +696,8 @@ LAWS = [
     )
     for k in KINDS
 ] + [
+    Law("elements_at_infinity", lambda tier: inf_case(tier), run_inf, lambda c: True, lambda c: [c["what"], "coll" if c["coll"] else "single"], {"quick": 800, "thorough": 10000},
+        "parallel lines / planes, a plane and a parallel line, three planes with a common direction, the line at infinity of parallel planes cut with a plane, joins of directions, the plane at infinity as an argument: exact result in every argument order", shard=300),
     Law("single_precision", lambda tier: sp_case(tier), run_sp, lambda c: True, lambda c: [c["kind"], "complex64" if c["cplx"] else "float32"] + (["one-double-argument"] if c["mixed"] else []) + (["collection"] if len(c["elems"]) > 1 else []),
         {"quick": 600, "thorough": 10000}, "all arguments in float32 / complex64 (small integer coordinates): exact span / intersection, incidence", shard=300, mandatory=("complex64", "float32")),
     Law("wide_range_exact", lambda tier: wide_case(tier), run_wide, lambda c: True, lambda c: [c["op"], f"spread=2^{c['ka'] + c['kb']}"], {"quick": 300, "thorough": 4000},
